@@ -7,6 +7,7 @@
 #include <pika/execution.hpp>
 #include <pika/init.hpp>
 #include <pika/runtime.hpp>
+#include <pika/runtime/runtime.hpp>
 #include <pika/thread.hpp>
 #include <pika/threading_base/detail/global_activity_count.hpp>
 
@@ -343,6 +344,8 @@ namespace vf::rt {
         {
             using pika::threads::detail::thread_schedule_state;
             long long act = 0, pend = 0, stag = 0, susp = 0, poll = 0, qlen = 0;
+            if (pika::detail::get_runtime_ptr() == nullptr)
+                fail_now("runtime_died", "the runtime object is gone while the case is still running (an exception escaped a task and shut the runtime down)");
             auto& rp = pika::resource::get_partitioner();
             std::size_t np = rp.get_num_pools();
             for (std::size_t i = 0; i < np; ++i)
